@@ -124,11 +124,22 @@ def unit_save(shape):
                        zand(B(ok), *[a.t == s_[1] for a, s_ in zip(args, spec_args)]) if ok else B(False),
                        clause='names exactly the options changed since the last successful save - scalar options once with their value, list options once per element in list order - and no unchanged option')
             chained = ctx.models.glog(p, 'chained')
-            cb_ok = (len(chained) >= 1 and chained[0][1] == 'addCallback' and isinstance(chained[0][2][0], VFunc)
-                     and chained[0][2][0].qualname.endswith('_save_completed'))
-            ctx.oblige('post.pending_set_cleared_only_on_acknowledgement', p,
-                       zand(B(cb_ok), B(len(p.heap[('dict', p.heap[('f', cfg.oid, 'unsaved')].did)]) == len(pairs))),
+            n_pending = lambda q_: len(q_.heap[('dict', q_.heap[('f', cfg.oid, 'unsaved')].did)])
+            ctx.oblige('post.pending_set_untouched_until_tor_answers', p, B(n_pending(p) == len(pairs)),
                        clause='if Tor rejects the save the changes remain pending and are not lost')
+            if chained:
+                # what is registered on the SETCONF Deferred is run: acknowledgement clears the pending set, rejection keeps it
+                from pyvc import chain as CH
+                entries = CH.entries_of(chained, chained[0][0])
+                for q, v, bad in CH.run(ex, p.fork(), entries, VStr('OK'), models=ctx.models):
+                    ctx.oblige('post.acknowledgement_clears_the_pending_set', q, B(not bad and n_pending(q) == 0),
+                               clause='after Tor acknowledges, nothing is pending')
+                fail = VOpaque('failure', 51)
+                for q, v, bad in CH.run(ex, p.fork(), entries, fail, failed=True, models=ctx.models, is_failure=lambda x: x is fail):
+                    ctx.oblige('post.rejection_keeps_the_changes_pending', q, B(n_pending(q) == len(pairs)),
+                               clause='if Tor rejects the save the changes remain pending and are not lost')
+            else:
+                ctx.oblige('post.the_answer_to_setconf_is_awaited', p, B(False))
     return run
 
 
